@@ -263,6 +263,20 @@ def gen_consts():
     EX("exceptTryFreshness", "_DateLocaleParser._try_freshness_parser")
     EX("exceptTryParser", "_DateLocaleParser._try_parser")
     EX("exceptTryTimestamp", "_DateLocaleParser._try_timestamp_parser")
+    # _try_parser: is the shared DATE_ORDER put back on every way out — in each handler (or a finally), and on the normal path before the return?
+    tp = d.func("_DateLocaleParser._try_parser")
+    def _restores(stmts):
+        return any(isinstance(x, ast.Assign) and ast.unparse(x.targets[0]).endswith("_settings.DATE_ORDER") and ast.unparse(x.value) == "_order" for st in stmts for x in ast.walk(st))
+    r_catch = r_ok = False
+    for n in ast.walk(tp):
+        if isinstance(n, ast.Try):
+            fin = _restores(n.finalbody)
+            r_catch = fin or (bool(n.handlers) and all(_restores(h.body) for h in n.handlers))
+            after = tp.body[tp.body.index(n) + 1:] if n in tp.body else []
+            r_ok = fin or _restores(n.body) or _restores(n.orelse) or _restores(after)
+    emit("/-- date.py _try_parser: every `except` handler (or a `finally`) assigns the saved DATE_ORDER back -/\ndef tryParserRestoresOnCatch : Bool := " + lbool(r_catch))
+    emit("/-- date.py _try_parser: the normal path assigns the saved DATE_ORDER back -/\ndef tryParserRestoresOnReturn : Bool := " + lbool(r_ok))
+
     EX("exceptParseWithFormats", "parse_with_formats")
     def EXTRY(name, fn, callee):
         """except names of the `try` of `fn` whose body calls `callee` ([] when that call is not guarded)"""
